@@ -139,3 +139,13 @@ def model_parse(b, cases):
 def impl_ast_canon(case):
     cls, payload = case.out.get("AST", ("MISSING", ""))
     return "OK " + payload if cls == "OK" else cls
+
+
+def model_full(b, cases):
+    """whole model pipeline from the source files: AST (PARSE) and bash script (FULLBASH)"""
+    reqs = [parse_request(c) for c in cases]
+    asts = model_lines(b, reqs)
+    scripts = model_lines(b, ["FULLBASH" + r[5:] for r in reqs])
+    for c, a, sc in zip(cases, asts, scripts):
+        c.meta["model_ast"] = a
+        c.meta["model_bash"] = sc
